@@ -5,8 +5,9 @@ C02 — JSON-path extraction yields exactly the addressed JSON value, typed.
 
 Model: `JsonAccess.getValue` / `fromLinear`, `convertFromJson`, the `Json` branch of `Extract.extractColumn`
 and `ParsingInput.new` (`serde_json::from_str(line).unwrap_or(Null)` once per line iff the table has JSON columns),
-mirroring /repo HEAD. The JSON tree is the oracle (`LineOracle.json`, `none` = not JSON); all theorems hold for
-every tree, every definition and every oracle answer. Specification: `followPath` (the value reached by following
+mirroring /repo HEAD. The JSON tree is a parameter (`LineOracle.json`, `none` = not JSON): all theorems of the first sections
+hold for every tree, every definition and every oracle answer; the last section starts from the BYTES of the line
+(`Model/JsonDoc.lean` `docOfLine`: the RFC 8259 grammar of `Spec/JsonGrammar.lean` plus serde_json's number classification). Specification: `followPath` (the value reached by following
 the path), `noCoercion` (the decision table) and `specColumn`.
 -/
 namespace Sqlgrep.Props.C02
